@@ -162,15 +162,20 @@ func (c *Conn) match(subject string) []*Sub {
 }
 
 func (c *Conn) deliver(targets []*Sub, subject, reply string, payload []byte) int {
+	// The (non-blocking) sends happen under the connection mutex so that, like
+	// with a real client, nothing is delivered once Close has returned.
+	c.mu.Lock()
+	defer c.mu.Unlock()
+	if c.Closed > 0 {
+		return 0
+	}
 	n := 0
 	for _, s := range targets {
 		m := &nats.Msg{Subject: subject, Reply: reply, Data: append([]byte(nil), payload...), Sub: s.NSub}
 		if trySend(s.Ch, m) {
 			n++
 		} else {
-			c.mu.Lock()
 			c.Dropped++
-			c.mu.Unlock()
 		}
 	}
 	return n
